@@ -9,7 +9,7 @@
      x<hex>               an array element given verbatim
      B<hex|->             (only item) the whole body given verbatim
    Output:  batch:s=<ok>/f=<failed>:[<entry>,...]   entry = ok:<rawhex> | call:<code>:<msghex>:<-|h<datahex>>
-        or  err:parse | err:invalidid | err:notpending *)
+        or  err:transport | err:parse | err:invalidid | err:notpending *)
 open Common
 open Httpbatch_model
 
@@ -68,6 +68,7 @@ let handle line =
     print_endline (match http_reply lo n body with
       | HOk l -> Printf.sprintf "batch:s=%d/f=%d:[%s]" (nat_to_int (count_ok l)) (nat_to_int (count_err l))
                    (String.concat "," (List.map resp_s l))
+      | HErr HTransport -> "err:transport"
       | HErr HParse -> "err:parse"
       | HErr HBadId -> "err:invalidid"
       | HErr HNotPending -> "err:notpending")
